@@ -128,7 +128,7 @@ func evalC20(c *core.Ctx, e *eco.Eco, op string, args []string) []core.Violation
 
 func runC20(c *core.Ctx, ck *Check) {
 	evalWitnesses(c, ck)
-	rounds := c.Scale(3, 50)
+	rounds := c.Scale(12, 500)
 	nRanges := c.Scale(120, 300)
 	type job struct {
 		e *eco.Eco
